@@ -286,6 +286,7 @@ def argparse_frame_replay():
 
 def main(tier, write_baseline=False):
     run = Run("C12", tier, "other", checker_cmd=common.checker_cmd("C12", tier))
+    run.confirm_abstracted = ('param2argparse_param#frame-on-default', ':_resolve_arg/')  # refutations of these exact contracts count only with an input that fails on the real code (report.Run.violation)
     run.trusted_base.update(["rule engine of checks/C12.py over the real ast (write frame, dominance, shape)", "cddvc E1 (Seq views) for the block contract on cmp_ast"])
     refuted = []
     from cddvc import e1
